@@ -155,6 +155,13 @@ n('C03', 'gauss_seidel_x: rhs term re-associated', CORE,
 n('C03', 'gauss_seidel: st computed with *0.25', CORE,
   "st = np.array([st0, st1, st2, st3, st4, st5])/4.",
   "st = np.array([st0*0.25, st1*0.25, st2*0.25, st3*0.25, st4*0.25, st5*0.25])/1.")
+m('C05', 'smoothing: lr_dir adapted only for some shapes', SOLVER,
+  "    c_lr_dir = _current_lr_dir(lr_dir, model.grid)\n\n    # Compute and store",
+  "    if model.grid.shape_cells[0] < 3:\n        c_lr_dir = _current_lr_dir(lr_dir, model.grid)\n    else:\n        c_lr_dir = lr_dir\n\n    # Compute and store",
+  'C05.H2')
+n('C05', 'smoothing: adapted code through a renamed local', SOLVER,
+  "    c_lr_dir = _current_lr_dir(lr_dir, model.grid)\n\n    # Compute and store",
+  "    grid_now = model.grid\n    c_lr_dir = _current_lr_dir(lr_dir, grid_now)\n\n    # Compute and store")
 n('C03', 'smoothing: dispatch list reordered', SOLVER,
   "if c_lr_dir in [1, 5, 6, 7]:  # Line relaxation in x-direction",
   "if c_lr_dir in [7, 6, 5, 1]:  # Line relaxation in x-direction")
@@ -274,6 +281,27 @@ n('C01', 'multigrid: residual stored through a second local', SOLVER,
   "    var.l2 = l2_last\n", "    final = l2_last\n    var.l2 = final\n")
 
 # ------------------------------------------------------------------- C12
+m('C12', 'to_dict: receiver_interpolation not written', SIMS,
+  "            'receiver_interpolation': self.receiver_interpolation,\n", "",
+  'C12.OW5.roundtrip')
+m('C12', 'from_dict: layered_opts not handed to the constructor', SIMS,
+  "        cls_inp['layered_opts'] = inp.pop('layered_opts', {})\n",
+  "        inp.pop('layered_opts', {})\n", 'C12.OW5.roundtrip')
+m('C12', 'to_dict: name and info swapped', SIMS,
+  "            'name': self.name,\n            'info': self.info,",
+  "            'name': self.info,\n            'info': self.name,",
+  'C12.OW5.roundtrip')
+n('C12', 'from_dict: file_dir read together with the class inputs', SIMS,
+  "        cls_inp['file_dir'] = inp.pop('file_dir', None)\n",
+  "        cls_inp['file_dir'] = None\n        cls_inp['file_dir'] = inp.pop('file_dir', cls_inp['file_dir'])\n")
+VARIANTS.append(V('C12', 'clean: gradient only reset if back-propagated fields exist', [
+  (SIMS, "                if hasattr(self, name):\n                    delattr(self, name)\n\n            # Remove files",
+   "                if hasattr(self, name):\n                    delattr(self, name)\n                    if what != 'keepresults':\n                        self._gradient = None\n\n            # Remove files"),
+  (SIMS, "            for name in ['_gradient', '_misfit']:\n                delattr(self, name)\n                setattr(self, name, None)",
+   "            self._misfit = None")], 'violation', 'C12.OW3.clean'))
+n('C12', 'clean: gradient and misfit reset by plain assignments', SIMS,
+  "            for name in ['_gradient', '_misfit']:\n                delattr(self, name)\n                setattr(self, name, None)",
+  "            self._misfit = None\n            self._gradient = None")
 m('C12', '_bcompute: tolerance line removed', SIMS,
   "            data['solver_opts']['tol'] = self.tol_gradient\n            return self._data_or_file('bfield', source, freq, data)",
   "            return self._data_or_file('bfield', source, freq, data)", 'C12.OW4')
@@ -514,6 +542,20 @@ n('C20', 'ifreq_extrapolate: operands swapped', TIME,
   "        return self.fmin > self.freq_required")
 
 # ------------------------------------------------------------------- C14
+m('C14', 'interpolate_to_grid: property_z treated like mu_r', MODELS,
+  "            if prop in self._properties[:3]:\n                inp = g2g_inp",
+  "            if prop in self._properties[:2]:\n                inp = g2g_inp",
+  'C14.M5')
+n('C14', 'interpolate_to_grid: mapped properties listed by name', MODELS,
+  "            if prop in self._properties[:3]:\n                inp = g2g_inp",
+  "            if prop in ['property_x', 'property_y', 'property_z']:\n                inp = g2g_inp")
+m('C14', 'extract_1d: mu_r counted as a mapped property', MODELS,
+  "            mapped = prop in self._properties[:3]",
+  "            mapped = prop in self._properties[:4]", 'C14.M5')
+m('C14', 'setter: shortcut for the stored array itself', MODELS,
+  "        self._check_positive_finite(mu_r, 'mu_r')\n        self._mu_r[:]",
+  "        if mu_r is self._mu_r:\n            return\n        self._check_positive_finite(mu_r, 'mu_r')\n        self._mu_r[:]",
+  'C14.M3.setters')
 m('C14', 'MapResistivity: derivative sign', MAPS,
   "        gradient *= -self.backward(mapped)**2",
   "        gradient *= self.backward(mapped)**2", 'C14.M2')
@@ -577,6 +619,22 @@ m('C07', 'amat_x: eta enters with 0.5 (operator/gradient mismatch)', CORE,
   "rx[ix, iy, iz] -= 0.5*rrx - 0.5*stx*ex[ix, iy, iz]", 'C07.G1')
 
 # ------------------------------------------------------------------- C08
+VARIANTS.append(V('C08', 'jvec: chain rule of the z part inside the task builder', [
+  (SIMS, "            n = 1 if self.model.case == 'VTI' else 2\n            self.model.map.derivative_chain(\n                    vector[n, ...], self.model.property_z)\n\n        # Interpolation options.",
+   "            pass\n\n        # Interpolation options."),
+  (SIMS, "            efield = self._dict_get('efield', source, freq)\n\n            # Interpolate to computational grid.",
+   "            efield = self._dict_get('efield', source, freq)\n            if self.model.case in ['VTI', 'triaxial']:\n                self.model.map.derivative_chain(\n                    vector[-1, ...], self.model.property_z)\n\n            # Interpolate to computational grid.")],
+  'violation', 'C08.V1'))
+n('C08', 'jvec: z part addressed as the last entry through an alias', SIMS,
+  "            n = 1 if self.model.case == 'VTI' else 2\n            self.model.map.derivative_chain(\n                    vector[n, ...], self.model.property_z)",
+  "            chain = self.model.map.derivative_chain\n            chain(vector[-1, ...], self.model.property_z)")
+m('C08', '_get_rfield: empty field if any residual is NaN', SIMS,
+  "        # Residual source strength: Weighted residual, normalized by -smu0.\n        strength = np.conj(residual",
+  "        if np.isnan(residual).any():\n            return rfield\n        strength = np.conj(residual",
+  'C08.V4')
+n('C08', '_get_rfield: shortcut if all residuals are NaN', SIMS,
+  "        # Residual source strength: Weighted residual, normalized by -smu0.\n        strength = np.conj(residual",
+  "        if np.isnan(residual).all():\n            return rfield\n        strength = np.conj(residual")
 m('C08', 'jvec: z part of a VTI vector taken at index 2', SIMS,
   "            n = 1 if self.model.case == 'VTI' else 2", "            n = 2", 'C08.V1')
 m('C08', 'jvec: HTI vector [c0,c1,c0] -> [c0,c1,c1]', SIMS,
@@ -644,6 +702,13 @@ n('C10', '_dipole_vector: factor order', FIELDS,
   "                    vfield.fx[ix, iy+1, iz] += x_len*ez*ry")
 
 # ------------------------------------------------------------------- C15
+m('C15', 'gradient: transposed average skipped for equal shapes', SIMS,
+  "                    if self.model.grid != gfield.grid:\n                        # Wrapped",
+  "                    if grad.shape != gradient.shape:\n                        # Wrapped",
+  'C15.VA5')
+n('C15', 'gradient: grid comparison written the other way round', SIMS,
+  "                    if self.model.grid != gfield.grid:\n                        # Wrapped",
+  "                    if not gfield.grid == self.model.grid:\n                        # Wrapped")
 m('C15', 'interpolate_to_grid: log flag inverted', MODELS,
   "'log': not self.map.name.startswith('L')", "'log': self.map.name.startswith('L')",
   'C15.VA1')
